@@ -121,6 +121,7 @@ type Exec struct {
 	retN2    int
 	presSorts map[string]string
 	epochComps map[int]map[string]string
+	noStoreHit map[string]bool
 	ghostOn  bool
 }
 
@@ -132,7 +133,7 @@ type Hook interface {
 }
 
 func NewExec(p *Prog, opt *Options) *Exec {
-	e := &Exec{P: p, Opt: opt, strs: map[string]*Term{}, floats: map[string]*Term{}, declared: map[string]bool{}, anchorN: map[string]int{}, seenName: map[string]int{}, ghostFuncs: map[string]func(en *evalEnv, args []ev) ev{}, usedLoopKeys: map[string]bool{}}
+	e := &Exec{P: p, Opt: opt, strs: map[string]*Term{}, floats: map[string]*Term{}, declared: map[string]bool{}, anchorN: map[string]int{}, seenName: map[string]int{}, ghostFuncs: map[string]func(en *evalEnv, args []ev) ev{}, usedLoopKeys: map[string]bool{}, noStoreHit: map[string]bool{}}
 	e.registerDigitGhosts()
 	return e
 }
